@@ -129,7 +129,9 @@ class CompiledSimulation(object):
         # Passing the dictionary objects themselves since they aren't updated anywhere.
         # If that's ever not the case, will need to pass in deep copies of them like done
         # for the normal Simulation so we retain the initial values that had.
-        self.tracer._set_initial_values(default_value, self._regmap, self._memmap)
+        # (memories keyed by memid, which is what the Verilog testbench generator looks up)
+        self.tracer._set_initial_values(default_value, self._regmap,
+                                        {mem.id: mem_map for mem, mem_map in self._memmap.items()})
 
         self._create_dll()
         self._initialize_mems()
